@@ -410,6 +410,30 @@ func runC19(c *Ctx) *Replay {
 			sc.Extra["stdout_mode"] = "1"
 		}
 	}
+	if class != "symlinks" && class != "large" && r.Chance(1, 3) {
+		// files whose NAMES derive from a target's (editor backups, leftovers of other tools):
+		// whatever scratch names a tool uses next to its target, these are somebody's files
+		var ts []string
+		for _, t := range strings.Split(sc.Extra["targets"], ",") {
+			if t != "" {
+				ts = append(ts, t)
+			}
+		}
+		sort.Strings(ts)
+		if len(ts) > 0 {
+			t := ts[r.Intn(len(ts))]
+			dir, base := filepath.Split(t)
+			for i, n := 0, r.Range(1, 3); i < n; i++ {
+				name := dir + []string{base + "~", base + ".tmp", base + ".bak", base + ".orig", base + ".new", "." + base + ".swp", ".#" + base, base + ".lock", "." + base + ".tmp", base + "~~"}[r.Intn(10)]
+				if _, taken := sc.Files[name]; !taken {
+					sc.Files[name] = []string{"struct KeptAside { int32 a; string note; }\n", "message OldDraft { 1 -> string s; }\n// my notes\n", oldOutput}[r.Intn(3)]
+					if strings.HasSuffix(filepath.Dir(name+"x"), "d") && sc.Extra["tool"] == "bebopfmt" {
+						sc.Extra["targets"] += "," + name // a whole directory is formatted: its entries are targets
+					}
+				}
+			}
+		}
+	}
 	// the imported files sit where the importing file looks for them
 	switch class {
 	case "import":
